@@ -124,7 +124,11 @@ def gen_cmd(cls, rnd, nopt=None, size=None):
     return cls(**params)
 
 
-def big_request(rnd, n):
-    """A request whose HL body is about n bytes (WriteNVRAM carries a free-size dataset)."""
+def big_request(rnd, n, fill=None):
+    """A request whose HL body is about n bytes (WriteNVRAM carries a free-size dataset); `fill` = a byte value for
+    the whole dataset (default: random bytes, now and then all zero)"""
+    if fill is None and rnd.random() < 0.2:
+        fill = 0
+    data = bytes([fill]) * n if fill is not None else bytes(rnd.getrandbits(8) for _ in range(n))
     return c.NcpConfig.WriteNVRAM.Req(TSN=rnd.getrandbits(8), DatasetCnt=1, DatasetId=t.DatasetId(1),
-                                     Version=1, Dataset=t.NVRAMDataset(bytes(rnd.getrandbits(8) for _ in range(n))))
+                                     Version=1, Dataset=t.NVRAMDataset(data))
